@@ -195,7 +195,26 @@ def dtypes_for(c):
     p = c["params"]
     if c["name"] in ("UPGrad", "DualProj") and F(p["reg_eps"]) < F(1, 10**4):
         return ("f64",)
+    if c["name"] in ("IMTLG", "ConFIG", "AlignedMTL") and gram_cond(c["J"], c["name"]) > 100.0:
+        # IMTL-G, Aligned-MTL and (since fix 1324386) ConFIG decide on the m x m GRAMIAN: their float32
+        # accuracy is cond^2 * eps (6e-4 at cond 100, 6e-2 at cond 1e3).  "Bounded condition number" is
+        # read per dtype: float32 up to 100, float64 up to 1e3
+        return ("f64",)
     return ("f64", "f32")
+
+
+def gram_cond(J, name):
+    """condition number of the rows (of the UNIT rows for ConFIG) restricted to the non-zero singular values"""
+    import numpy as np
+    a = np.array([[float(x) for x in r] for r in J], dtype=np.float64)
+    if name == "ConFIG":
+        nr = np.linalg.norm(a, axis=1, keepdims=True)
+        a = np.where(nr > 0, a / np.where(nr > 0, nr, 1.0), 0.0)
+    sv = np.linalg.svd(a, compute_uv=False)
+    if sv.size == 0 or sv[0] == 0:
+        return 1.0
+    nzv = sv[sv > 1e-12 * sv[0]]
+    return float(nzv[0] / nzv[-1])
 
 
 def run_corr(chk, cases, tag, dts=None):
